@@ -1624,6 +1624,37 @@ func (r *Runner) genTargetFail(t, o *Tab) *Stmt {
 	return s
 }
 
+// genLoadFail: a statement that fails WHILE ITS TABLES ARE LOADED, after the first table was already fetched from the
+// cache: the same table twice in FROM without alias, a self join without alias, a second table that does not exist.
+// Whatever uncommitted changes earlier statements left on the table must still be there.  Law-only.
+func (r *Runner) genLoadFail(t *Tab) *Stmt {
+	g := r.G
+	a := t.Name
+	s := &Stmt{Kind: "loadfail", Targets: []string{a}, Fault: &Fault{Kind: "during_load"}, Wrap: "plain"}
+	dc := t.dataCols()
+	c := "id"
+	if len(dc) > 0 {
+		c = dc[0]
+	}
+	switch g.Intn(7) {
+	case 0:
+		s.SQL = fmt.Sprintf("UPDATE %[1]s SET %[1]s.%[2]s = 1 FROM %[1]s, %[1]s", a, c)
+	case 1:
+		s.SQL = fmt.Sprintf("DELETE %[1]s FROM %[1]s, %[1]s", a)
+	case 2:
+		s.SQL = fmt.Sprintf("UPDATE %[1]s SET %[1]s.%[2]s = 1 FROM %[1]s JOIN %[1]s ON TRUE", a, c)
+	case 3:
+		s.SQL = fmt.Sprintf("UPDATE %[1]s SET %[1]s.%[2]s = 1 FROM %[1]s, nosuch_zz WHERE TRUE", a, c)
+	case 4:
+		s.SQL = fmt.Sprintf("DELETE %[1]s FROM %[1]s, nosuch_zz WHERE TRUE", a)
+	case 5:
+		s.SQL = fmt.Sprintf("DELETE %[1]s FROM %[1]s JOIN %[1]s ON %[1]s.id = %[1]s.id", a)
+	default:
+		s.SQL = fmt.Sprintf("UPDATE %[1]s SET %[1]s.%[2]s = 1 FROM %[1]s x, %[1]s x WHERE TRUE", a, c)
+	}
+	return s
+}
+
 // BadAttrs: ALTER TABLE … SET statements that must fail: an invalid value for every attribute, values of the wrong
 // type, an unknown attribute; `combo`: values that are valid by themselves but not for the table's format.
 var BadAttrs = []string{
@@ -1718,7 +1749,7 @@ func (r *Runner) genCreate(t *Tab, f *Fault) *Stmt {
 func (r *Runner) Gen(fault bool) *Stmt {
 	g := r.G
 	kinds := []string{"insert", "insert", "insert", "insertsel", "insertsel", "replacesel", "replace", "replace", "replace", "update", "update", "update",
-		"delete", "delete", "updatem", "updatem", "deletem", "addcol", "addcol", "dropcol", "rename", "create", "setattr", "fnfail", "fnfail", "clausefail", "clausefail", "targetfail"}
+		"delete", "delete", "updatem", "updatem", "deletem", "addcol", "addcol", "dropcol", "rename", "create", "setattr", "fnfail", "fnfail", "clausefail", "clausefail", "targetfail", "loadfail", "loadfail"}
 	for tries := 0; tries < 80; tries++ {
 		t := r.Tabs[g.Intn(len(r.Tabs))]
 		var o *Tab
@@ -1809,6 +1840,11 @@ func (r *Runner) Gen(fault bool) *Stmt {
 				continue
 			}
 			s = r.genTargetFail(t, o)
+		case "loadfail":
+			if f == nil {
+				continue
+			}
+			s = r.genLoadFail(t)
 		case "create":
 			if f == nil && g.Intn(3) > 0 {
 				continue
@@ -1840,6 +1876,7 @@ var FaultsOf = map[string][]string{
 	"fnfail":     {"fn"},
 	"clausefail": {"clause"},
 	"targetfail": {"target"},
+	"loadfail":   {"load"},
 }
 
 // ---------- running ----------
@@ -2761,7 +2798,17 @@ func CancelCorpus(g *hc.Gen, o *hc.Out, root string) {
 		twoTargetUpdate("f1", "a", "f2", "e"), // once more, now on tables already loaded and changed in this transaction
 		twoTargetDelete("f2", "m1"),
 	}
-	for _, st := range stmts {
+	for k, st := range stmts {
+		// the tables carry an uncommitted change of an earlier statement while the cancellation points are scanned
+		for _, tn := range st.Targets {
+			t := r.Tab(tn)
+			a, b := Int(100+k), Int(7)
+			pre := &Stmt{Kind: "insert", Targets: []string{tn}, Wrap: "plain", SQL: fmt.Sprintf("INSERT INTO %s (id, %s) VALUES (%s, %s)", tn, t.Cols[1], a.SQL, b.SQL),
+				Op: fmt.Sprintf("insert %s 2 id %s 1 2 %s %s", tn, t.Cols[1], a.Tok, b.Tok)}
+			if out := r.Exec(pre, 0); out.Err == nil {
+				r.TwinExec(pre)
+			}
+		}
 		n, done, failed := r.ScanCancel(st, 5000, true)
 		o.Count(fmt.Sprintf("corpus_cancel_attempts~%d", n/10*10))
 		if failed || !done {
@@ -3321,8 +3368,35 @@ func NestedFailCorpus(g *hc.Gen, o *hc.Out, root string) {
 	law := func(kind, fault, sql string, targets ...string) *Stmt {
 		return &Stmt{Kind: kind, SQL: sql, Targets: targets, Wrap: "plain", Fault: &Fault{Kind: fault}}
 	}
+	// every table carries UNCOMMITTED changes of an earlier statement while the failing statements run
+	for k, t := range []string{"f1", "m1", "stdin", "f2"} {
+		c := r.Tab(t).Cols[1]
+		a, b := Int(50+k), Int(500+k)
+		st := &Stmt{Kind: "insert", Targets: []string{t}, Wrap: "plain", SQL: fmt.Sprintf("INSERT INTO %s (id, %s) VALUES (%s, %s)", t, c, a.SQL, b.SQL),
+			Op: fmt.Sprintf("insert %s 2 id %s 1 2 %s %s", t, c, a.Tok, b.Tok)}
+		out := r.Exec(st, 0)
+		if out.Err != nil || len(out.Failed) > 0 {
+			o.Law("corpus_statement_failed", map[string]string{"sql": st.SQL, "error": fmt.Sprint(out.Err)})
+			return
+		}
+		r.TwinExec(st)
+	}
 	for _, t := range []string{"f1", "m1", "stdin"} {
 		c := r.Tab(t).Cols[1]
+		// failures DURING LOADING, after the table was fetched from the cache
+		for _, sql := range []string{
+			fmt.Sprintf("UPDATE %[1]s SET %[1]s.%[2]s = 1 FROM %[1]s, %[1]s", t, c),
+			fmt.Sprintf("DELETE %[1]s FROM %[1]s, %[1]s", t),
+			fmt.Sprintf("UPDATE %[1]s SET %[1]s.%[2]s = 1 FROM %[1]s JOIN %[1]s ON TRUE", t, c),
+			fmt.Sprintf("UPDATE %[1]s SET %[1]s.%[2]s = 1 FROM %[1]s, nosuch_zz WHERE TRUE", t, c),
+			fmt.Sprintf("DELETE %[1]s FROM %[1]s, nosuch_zz WHERE TRUE", t),
+			fmt.Sprintf("UPDATE %[1]s SET %[1]s.%[2]s = 1 FROM %[1]s x, f2 x WHERE TRUE", t, c),
+			fmt.Sprintf("DELETE f2 FROM f2 CROSS JOIN %[1]s CROSS JOIN %[1]s", t),
+		} {
+			if !run(law("loadfail", "during_load", sql, t)) {
+				return
+			}
+		}
 		for _, fn := range FnBodies {
 			for _, sql := range []string{
 				fmt.Sprintf("INSERT INTO %s (id, %s) VALUES (%s(9), 1)", t, c, fn),
@@ -3438,6 +3512,49 @@ func NumberRefCorpus(g *hc.Gen, o *hc.Out, root string) {
 		for _, st := range stmts {
 			out := r.Exec(st, 0)
 			o.Count("corpus:numref")
+			if out.Err != nil {
+				o.Law("corpus_statement_failed", map[string]string{"sql": st.SQL, "error": out.Err.Error()})
+				return
+			}
+		}
+	}
+	r.Commit()
+}
+
+// BigKeyCorpus (c05, first on every run): key matching with 16-19 digit integer keys that are adjacent beyond 2^53 (equal
+// float64 images) — as integers (temporary table) and as digit strings (file-backed table): REPLACE … USING (id) with
+// VALUES and with SELECT, multi-table UPDATE and DELETE joined on the key.
+func BigKeyCorpus(g *hc.Gen, o *hc.Out, root string) {
+	const b = 9007199254740992 // 2^53
+	rows := [][]int{{b, 1}, {b + 1, 2}, {b + 2, 3}, {b * 512, 4}, {b*512 + 1, 5}, {7, 6}}
+	src := [][]int{{b + 1, 10}, {b + 3, 30}, {b*512 + 1, 50}, {b*512 + 2, 60}}
+	r := newFixedRunner(g, o, root, "corpus-bigkey", []fixedTab{
+		{"f1", true, []string{"id", "a"}, rows}, {"m1", false, []string{"id", "a"}, rows},
+		{"f2", true, []string{"id", "e"}, src}, {"m2", false, []string{"id", "e"}, src},
+	})
+	r.OnlyFailureLaws = false
+	r.dropTwin()
+	defer r.Close()
+	hs := func(kind, sql, op string, targets ...string) *Stmt {
+		return &Stmt{Kind: kind, SQL: sql, Op: op, Targets: targets, Wrap: "plain"}
+	}
+	tt := True().Tok
+	for _, p := range [][2]string{{"f1", "m2"}, {"m1", "f2"}, {"f1", "f2"}, {"m1", "m2"}} {
+		t, s := p[0], p[1]
+		k1, k2, k3 := Int(b+1), Int(b+3), Int(b*512+2)
+		stmts := []*Stmt{
+			hs("replace", fmt.Sprintf("REPLACE INTO %s (id, a) USING (id) VALUES (%s, 100), (%s, 300), (%s, 600)", t, k1.SQL, k2.SQL, k3.SQL),
+				fmt.Sprintf("replace %s 2 id a 1 id 3 2 %s %s 2 %s %s 2 %s %s", t, k1.Tok, Int(100).Tok, k2.Tok, Int(300).Tok, k3.Tok, Int(600).Tok), t),
+			hs("replacesel", fmt.Sprintf("REPLACE INTO %s (id, a) USING (id) SELECT id, e FROM %s WHERE TRUE", t, s),
+				fmt.Sprintf("replacesel %s 2 id a 1 id %s 2 $id $e %s", t, s, tt), t),
+			hs("updatem", fmt.Sprintf("UPDATE %[1]s SET %[1]s.a = %[2]s.e + 1 FROM %[1]s, %[2]s WHERE %[1]s.id = %[2]s.id", t, s),
+				fmt.Sprintf("updatem 1 %[1]s 2 %[1]s %[2]s 1 %[1]s a + $%[2]s.e %[3]s eq $%[1]s.id $%[2]s.id", t, s, Int(1).Tok), t),
+			hs("deletem", fmt.Sprintf("DELETE %[1]s FROM %[1]s, %[2]s WHERE %[1]s.id = %[2]s.id AND %[2]s.e = 30", t, s),
+				fmt.Sprintf("deletem 1 %[1]s 2 %[1]s %[2]s and eq $%[1]s.id $%[2]s.id eq $%[2]s.e %[3]s", t, s, Int(30).Tok), t),
+		}
+		for _, st := range stmts {
+			out := r.Exec(st, 0)
+			o.Count("corpus:bigkey")
 			if out.Err != nil {
 				o.Law("corpus_statement_failed", map[string]string{"sql": st.SQL, "error": out.Err.Error()})
 				return
